@@ -13,6 +13,8 @@
 //   rx SIZE B0 B1 ...      radio reports adv_received(): bytes B.. (over the air: 2 byte header, payload) are copied to
 //                          the receive buffer given with schedule_advertisment, read_buffer::size = SIZE
 //   disc                   the radio reports timeout() for every scheduled connection event until the link layer gives up
+//   disc?                  the same, but only if a connection event is scheduled (no event otherwise)
+//   drain K | sync37       up to K adv_timeout() while an advertisement is scheduled | until the scheduled one is on channel 37
 //   wait US                idle time passes
 //   wladd ID | wlclear | wlconn B | wlscan B         white list (configurations with white_list<N>)
 //   peer ID                directed_advertising_address( addr(ID) )
@@ -55,7 +57,7 @@ struct radio_state {
     bool adv_pending = false, conn_pending = false;
     ll::read_buffer receive{ nullptr, 0 };
     std::vector< tx_rec > txq;
-    unsigned nconn = 0;
+    unsigned nconn = 0, last_ch = 0;
     std::uint32_t aa = 0, crc = 0;
 };
 
@@ -89,6 +91,7 @@ public:
         r.pdu  = pdu_bytes( advertising_data );
         r.rsp  = pdu_bytes( response_data );
         st_.T0 = r.t;
+        st_.last_ch = channel;
         st_.adv_pending  = true;
         st_.receive      = receive;
         st_.txq.push_back( r );
@@ -301,6 +304,18 @@ static int run( const char* script, const char* trace )
             if ( p ) { r.adv_pending = false; r.clock = std::max( r.clock, r.T0 ); l.adv_timeout(); }
             t.ev( "Timeout" ).f( "was_pend", p );
         }
+        else if ( c.op == "drain" || c.op == "sync37" )
+        {
+            // drain K: up to K adv_timeout() while an advertisement is scheduled; sync37: until the scheduled one is on channel 37
+            const bool sync = c.op == "sync37";
+            for ( int k = 0; k < ( sync ? 3 : int( c.arg( 0 ) ) ) && r.adv_pending && !( sync && r.last_ch == 37 ); ++k )
+            {
+                r.adv_pending = false; r.clock = std::max( r.clock, r.T0 ); l.adv_timeout();
+                t.ev( "Timeout" ).f( "was_pend", true );
+                d.done();
+            }
+            continue;
+        }
         else if ( c.op == "rx" )
         {
             const bool p = r.adv_pending;
@@ -320,8 +335,9 @@ static int run( const char* script, const char* trace )
             }
             t.ev( "AdvRx" ).f( "was_pend", p ).f( "size", (long long)size ).fl( "pdu", bytes );
         }
-        else if ( c.op == "disc" )
+        else if ( c.op == "disc" || c.op == "disc?" )
         {
+            if ( c.op == "disc?" && !r.conn_pending ) continue;
             int k = 0;
             while ( r.conn_pending && k < 20 ) { r.conn_pending = false; r.clock += 30000; l.timeout(); ++k; }
             t.ev( "Disc" ).f( "k", k ).f( "still_conn", r.conn_pending );
